@@ -49,7 +49,7 @@ def applyChannelDM (conj : α → α) (ch : Chan α) (ρ : DM α) : DM α :=
 
 /-- `partial_trace(ρ, qs)` as a function of the remaining bits: bits `qs` of `x`,`y` are
 ignored, `Σ_z ρ(x[qs:=z], y[qs:=z])`. -/
-def ptrace (qs : List Nat) (ρ : DM α) : DM α := fun x y =>
+def ptraceSet (qs : List Nat) (ρ : DM α) : DM α := fun x y =>
   sumOver qs (fun z => ρ z (Lab.setMany y qs z)) x
 
 /-- Pauli matrices (local, 2×2). -/
@@ -64,7 +64,7 @@ def gZ (q : Nat) : MGate α := { mat := matZ, targets := [q] }
 
 /-- `tensordot(trace, |0⟩⟨0|)` moved to position `q`: `Tr_q ρ ⊗ |0⟩⟨0|_q`. -/
 def traceZero (q : Nat) (ρ : DM α) : DM α := fun x y =>
-  if x q = false ∧ y q = false then ptrace [q] ρ x y else 0
+  if x q = false ∧ y q = false then ptraceSet [q] ρ x y else 0
 
 /-- `reset_error_density_matrix`:
     `state = c0 * state + p_0 * zero;  return state + p_1 * apply_gate_dm(X(q), zero)`
@@ -76,7 +76,7 @@ def resetFast (conj : α → α) (c0 p0 p1 : α) (q : Nat) (ρ : DM α) : DM α 
 /-- `depolarizing_error_density_matrix`: `c0 * state + lam * (Tr_qs ρ ⊗ I/2^k)`;
     `c0 = 1 - lam`, `w = lam / 2^k` (the normalised identity is scaled by `lam`). -/
 def depolFast (c0 w : α) (qs : List Nat) (ρ : DM α) : DM α := fun x y =>
-  c0 * ρ x y + w * (if qs.all (fun q => x q == y q) then ptrace qs ρ x y else 0)
+  c0 * ρ x y + w * (if qs.all (fun q => x q == y q) then ptraceSet qs ρ x y else 0)
 
 /-- `ThermalRelaxationChannel.apply_density_matrix`, regime `t_1 >= t_2`:
     `reset(state) - p_z * state + p_z * apply_gate_dm(Z(q), state)` (repaired target: the
